@@ -401,6 +401,8 @@ func checkC20(p *Prog, r *Report) {
 			r.Check(b1 != "" && b2 == "", kp("RACE", "no-goroutines-or-channels#control"), "positive control: a fan-out over a channel is reported, a plain loop is not", "checker/c20.go", "1 of 1 / 0 of 1", fmt.Sprintf("bad=%q good=%q", b1, b2))
 		}
 	}
+	// a query answers from the entries of the item it was asked about: a listing's prefix fixes every component that names the parent
+	aolListings(p, r, buildAolModel(p), "C20")
 	// repeated queries at a fixed height give identical answers: no query answer is assembled in map iteration order
 	{
 		nMapQ := 0
